@@ -530,7 +530,8 @@ Definition parse_proto_msg (ct : str) : option mtype :=
   | [] => None
   end.
 
-Record hreq := mkHReq { h_method : str; h_ctype : str; h_cenc : str; h_body : str }.  (* "" = header absent *)
+(* "" = header absent; h_body_err: reading the request body fails (io.ReadAll returns an error) *)
+Record hreq := mkHReq { h_method : str; h_ctype : str; h_cenc : str; h_body : str; h_body_err : bool }.
 (* what the store returns: a nil response, or status code / statistics, and whether it returns an error *)
 Record store_beh := mkSB { sb_nil : bool; sb_status : Z; sb_samples : Z; sb_hist : Z; sb_exem : Z; sb_err : bool }.
 (* response status, the three written-statistics headers if set, and the store call if it happened;
@@ -562,6 +563,7 @@ Definition serve_inner (accepted : list mtype) (sb : store_beh) (method ctype bo
 (* SnappyDecompressorMiddleware (the default middleware) around the handler *)
 Definition serve (decode : str -> option str) (accepted : list mtype) (sb : store_beh) (r : hreq) : hout :=
   if negb (is_empty (h_cenc r)) && negb (str_eqb (h_cenc r) snappy_name) then HOut 415 None None
+  else if h_body_err r then HOut 400 None None   (* "Error reading request body" *)
   else match decode (h_body r) with
        | None => HOut 400 None None
        | Some d => serve_inner accepted sb (h_method r) (h_ctype r) d
@@ -598,6 +600,9 @@ Definition wf_param (p : ct_param) : Prop := WS (p_ows1 p) /\ WS (p_ows2 p) /\ T
 Definition wf_ast (a : ct_ast) : Prop := WS (a_lead a) /\ WS (a_trail a) /\ TOK (a_media a) /\ Forall wf_param (a_params a).
 
 (* abbreviations for the decision table *)
+(* the decompressed body; None when the body cannot be read or cannot be decoded *)
+Definition read_body (decode : str -> option str) (r : hreq) : option str :=
+  if h_body_err r then None else decode (h_body r).
 Definition enc_ok (r : hreq) : bool := is_empty (h_cenc r) || str_eqb (h_cenc r) snappy_name.
 Definition eff_ctype (r : hreq) : str := if is_empty (h_ctype r) then app_proto else h_ctype r.
 Definition store_status (sb : store_beh) : Z :=
@@ -620,7 +625,7 @@ Definition handler_spec_ok (decode : str -> option str) (accepted : list mtype) 
   | HOut status written (Some (t, payload)) =>
       (* the store is reached only by a faultless request and gets the decompressed payload and the parsed type *)
       negb bad_method && negb bad_enc &&
-      match decode (h_body r) with Some d => str_eqb d payload | None => false end &&
+      match read_body decode r with Some d => str_eqb d payload | None => false end &&
       existsb (mtype_eqb t) accepted &&
       match ct with Some (Some t') => mtype_eqb t t' | Some None => false | None => true end &&
       (* statistics headers always set (zero when the store returned no response); 204, or on a store error the
@@ -636,5 +641,5 @@ Definition handler_spec_ok (decode : str -> option str) (accepted : list mtype) 
                             | Some None => true
                             | None => true
                             end)) ||
-       ((status =? 400) && match decode (h_body r) with None => true | Some _ => false end))
+       ((status =? 400) && match read_body decode r with None => true | Some _ => false end))
   end.
